@@ -18,6 +18,10 @@ import (
 	"github.com/mlange-42/arche/listener"
 )
 
+// rawMode: print raw handles (id.gen), events in emission order and query results in
+// visit order - used where the implementation is compared with itself (C13, C19).
+var rawMode bool
+
 type rawEvent struct {
 	e       ecs.EntityEvent
 	locked  bool
@@ -60,6 +64,9 @@ func (x *W) addSlot(e ecs.Entity) int {
 }
 
 func (x *W) slotOf(e ecs.Entity) string {
+	if rawMode {
+		return fmt.Sprintf("%d.%d", e.ID(), e.Generation())
+	}
 	if e.IsZero() {
 		return "s0"
 	}
@@ -354,10 +361,21 @@ func (x *W) builder(ids, vals, rel string) *ecs.Builder {
 	return b
 }
 
+func (x *W) created(e ecs.Entity) string {
+	k := x.addSlot(e)
+	if rawMode {
+		return fmt.Sprintf("e s%d %d.%d", k, e.ID(), e.Generation())
+	}
+	return "e s" + strconv.Itoa(k)
+}
+
 func (x *W) newSlots(es []ecs.Entity) string {
 	first := len(x.slots)
 	for _, e := range es {
 		x.addSlot(e)
+	}
+	if rawMode {
+		return fmt.Sprintf("es %d s%d %v", len(es), first, es)
 	}
 	return fmt.Sprintf("es %d s%d", len(es), first)
 }
@@ -489,13 +507,13 @@ func (h *H) exec(wk int, cmd string, a []string, idxSeed int) (res string, msg s
 		return "n " + strconv.Itoa(n), ""
 	case "NEW":
 		e := x.w.NewEntity(x.ids(a[0])...)
-		return "e s" + strconv.Itoa(x.addSlot(e)), ""
+		return x.created(e), ""
 	case "NEWWITH":
 		e := x.w.NewEntityWith(x.pairs(a[0])...)
-		return "e s" + strconv.Itoa(x.addSlot(e)), ""
+		return x.created(e), ""
 	case "BNEW":
 		e := x.builder(a[0], a[1], a[2]).New(optEnt(a[3])...)
-		return "e s" + strconv.Itoa(x.addSlot(e)), ""
+		return x.created(e), ""
 	case "BBATCH":
 		before := map[ecs.Entity]bool{}
 		for _, e := range x.allEntities() {
@@ -682,6 +700,9 @@ func (h *H) exec(wk int, cmd string, a []string, idxSeed int) (res string, msg s
 				sl[i] = -1
 			}
 		}
+		if rawMode {
+			return fmt.Sprintf("dump %v", d), ""
+		}
 		sort.Ints(sl)
 		return "dump " + strIDs(sl), ""
 	case "LOAD":
@@ -809,7 +830,9 @@ func (h *H) run(idx int, wk int, cmd string, args []string) []string {
 	for i, e := range x.events {
 		evs[i] = x.strEvent(e)
 	}
-	sort.Strings(evs)
+	if !rawMode {
+		sort.Strings(evs)
+	}
 	for _, e := range evs {
 		out = append(out, fmt.Sprintf("EV %d %s", idx, e))
 	}
@@ -914,6 +937,13 @@ func (x *W) qscan(a []string, seed int) string {
 		if !panics(func() { tq := mk(); defer tq.Close(); tq.Step(0) }) {
 			x.chk = append(x.chk, "Step(0) did not panic")
 		}
+	}
+	if rawMode {
+		parts := make([]string, len(visited))
+		for i, e := range visited {
+			parts[i] = x.slotOf(e)
+		}
+		return fmt.Sprintf("order %s n=%d", strings.Join(parts, ","), n)
 	}
 	sl := make([]int, len(visited))
 	for i, e := range visited {
